@@ -103,6 +103,8 @@ def release_bounded(p):
                 for r in range(1 + (t % 2)):
                     rows.append((t, int(rng.integers(0, 3)), float(np.round(3 + rng.random() * 5, 3)), float(np.round(3 + rng.random() * 4, 3)), float(rng.integers(0, 40)), float(rng.integers(1, 100))))
             tables.append(rows)
+        # a source switched off: a file time whose rows all have mult 0 (in continuous mode nothing is released from it on)
+        tables.append([(0, 2, 4.5, 5.5, 5.0, 7.0), (0, 1, 6.25, 4.75, 10.0, 8.0), (4, 0, 4.5, 5.5, 5.0, 7.0), (4, 0, 6.25, 4.75, 10.0, 8.0), (6, 3, 5.5, 6.5, 20.0, 9.0)])
         windows = [(0, 8), (1, 7), (2, 6), (0, 4), (4, 8), (3, 5)]
         for rows, (a, b) in itertools.product(tables, windows):
             for rev in (False, True):
@@ -136,4 +138,4 @@ def release_bounded(p):
                         if not ok:
                             failures.append(dict(rows=rws, start=start, stop=stop, continuous=continuous, freq=freq, header=header, lonlat=lonlat, expected={k: len(v) for k, v in exp.items()}, got={k: len(v) for k, v in got.items()}))
         samples.append(dict(rows=tables[2], window=[1, 7], modes="discrete, continuous freq 1/2, forward/reversed, header in file / names in config, X,Y / lon,lat"))
-    return dict(cases=cases, failures=failures[:10], samples=samples, bound=f"{len(tables)} tables (<= 3 file times, <= 2 rows/time, mult 0..2) x {len(windows)} windows on an 8-step axis x forward/reversed x discrete/continuous(freq 1,2{',3' if tier != 'quick' else ''}) x 2 input spellings")
+    return dict(cases=cases, failures=failures[:10], samples=samples, bound=f"{len(tables)} tables (<= 3 file times, <= 2 rows/time, mult 0..3, one with an all-zero file time) x {len(windows)} windows on an 8-step axis x forward/reversed x discrete/continuous(freq 1,2{',3' if tier != 'quick' else ''}) x 2 input spellings")
